@@ -92,6 +92,20 @@ def special_progs(rng):
         q = P(synth.mkset(0, [], [mk(1, 0, [2, 4]), mk(2, 2, [], cleanup=True, err=True), mk(3, 4, [], cleanup=True, err=True)]), [], 0, "none:name2-" + nm, cleanup=True, err=True)
         q["names"] = {"types": {2: nm}, "params": None, "libname": None, "app_decls": []}; q["same_pkg_name"] = False
         out.append(q)
+    # the error / cleanup variables next to an import of the name Wire would pick for them
+    for libname, decl in (("err2", "err"), ("cleanup2", "cleanup"), ("err2", "f:err"), ("err3", "err")):
+        q = P(synth.mkset(0, [], [mk(1, 0, [2, 4]), mk(2, 2, [], cleanup=True, err=True), mk(3, 4, [], cleanup=True, err=True)]), [], 0, "none:import-named-" + libname, cleanup=True, err=True)
+        q["names"] = {"types": {}, "params": None, "libname": libname, "app_decls": [decl] + (["err2"] if libname == "err3" else [])}; q["same_pkg_name"] = False
+        for x in spec.all_sets(q["tree"]):
+            for pr in x["providers"]:
+                pr["pkg"] = 1
+        out.append(q)
+    # a user-chosen parameter name equal to the name Wire invents for an earlier blank or renamed parameter
+    for params, tnames in ((["_", "foo"], {1: "Foo"}), (["err", "err2"], {}), (["cleanup", "cleanup2"], {}), (["", "t1"], {}), (["_", "_", "foo2"], {1: "Foo", 2: "Foo2"})):
+        giv = [2, 4] if len(params) == 2 else [2, 4, 6]
+        q = P(synth.mkset(0, [], [mk(1, 0, giv, cleanup=True, err=True)]), giv, 0, "none:param-names-" + "-".join(p or "blank" for p in params), cleanup=True, err=True)
+        q["names"] = {"types": tnames, "params": params, "libname": None, "app_decls": []}; q["same_pkg_name"] = False
+        out.append(q)
     # "*" struct provider with a field whose tag merely contains wire:"-" (not prevented) and whose type has no source
     for tag in ('firewire:"-"', 'json:"x" wire:"-"', 'wire:"-" json:"y"', 'xwire:"-" '):
         q = P(synth.mkset(0, [], [mk(1, [0, 1], [2], struct=True), mk(2, 2, [])]), [], 0, "tag:" + tag, cleanup=False, err=False)
